@@ -1089,3 +1089,475 @@ def c19_checks(repo: Repo, tier: str, res: CheckResult, seed: int) -> None:
         _AUDIT_CACHE.clear()
         _AUDIT_CACHE.update(saved)
     res.count("HOSTILE.programs", n, 60)
+
+
+# ================================================================================================ C13: converters (tier G)
+BG = "adaptix/_internal/conversion/broaching/code_generator.py"
+CPV = "adaptix/_internal/conversion/converter_provider.py"
+
+
+def _plan_text(p: dict, depth: int = 0) -> str:
+    if p["k"] == "param":
+        return p["name"]
+    if p["k"] == "const":
+        return f"const({p['tag'] or json.dumps(p['value'])[:40]})"
+    if p["k"] == "acc":
+        return f"{_plan_text(p['target'])}.<{p.get('name', p.get('key', p.get('tag')))}>"
+    return f"{p['tag']}(" + ", ".join((a["key"] + "=" if a["key"] else "") + _plan_text(a["el"]) for a in p["args"]) + ")"
+
+
+def _match_plan(p: dict, e: ast.expr, ns: Dict[str, dict], bind: Dict[str, str]) -> Optional[str]:
+    """None when expression `e` is the image of plan `p`; otherwise the first disagreement.  `bind`: namespace name ->
+    tag, filled while matching; one namespace name must stand for exactly one object."""
+    k = p["k"]
+    if k == "param":
+        if isinstance(e, ast.Name) and e.id == p["name"]:
+            if e.id in ns:
+                return f"parameter `{e.id}` is shadowed by a namespace constant"
+            return None
+        return f"parameter {p['name']} rendered as `{norm(e)}`"
+    if k == "const":
+        if isinstance(e, ast.Name) and e.id in ns:
+            want = p["tag"]
+            got = ns[e.id].get("tag")
+            if want is not None:
+                return None if got == want else f"constant {want} rendered as `{e.id}` bound to {got or ns[e.id].get('repr')}"
+            # untagged value passed through the namespace: compare type and repr
+            enc = p["value"]
+            if ns[e.id].get("type") == enc["t"]:
+                return None
+            return f"constant of type {enc['t']} rendered as `{e.id}` of type {ns[e.id].get('type')}"
+        try:
+            v = _eval_literal(norm(e))
+        except Exception as ex:  # noqa: BLE001
+            return f"constant rendered as non literal `{norm(e)}` ({ex})"
+        if _encode(v) != p["value"]:
+            return f"constant {json.dumps(p['value'])[:60]} rendered as `{norm(e)}` (a different value or type)"
+        return None
+    if k == "acc":
+        acc = p["acc"]
+        if acc == "attr":
+            if p["name"].isidentifier():
+                if isinstance(e, ast.Attribute) and e.attr == p["name"]:
+                    return _match_plan(p["target"], e.value, ns, bind)
+            if isinstance(e, ast.Call) and norm(e.func) == "getattr" and len(e.args) == 2 and isinstance(e.args[1], ast.Constant) \
+                    and e.args[1].value == p["name"] and "getattr" not in ns:
+                return _match_plan(p["target"], e.args[0], ns, bind)
+            return f"attribute `{p['name']}` rendered as `{norm(e)[:60]}`"
+        if acc == "item":
+            if isinstance(e, ast.Subscript) and isinstance(e.slice, ast.Constant) and _encode(e.slice.value) == p["key"]:
+                return _match_plan(p["target"], e.value, ns, bind)
+            return f"item {json.dumps(p['key'])[:40]} rendered as `{norm(e)[:60]}`"
+        if acc == "getter":
+            if isinstance(e, ast.Call) and isinstance(e.func, ast.Name) and len(e.args) == 1 and not e.keywords \
+                    and ns.get(e.func.id, {}).get("tag") == p["tag"]:
+                return _match_plan(p["target"], e.args[0], ns, bind)
+            return f"custom accessor rendered as `{norm(e)[:60]}`"
+    if k == "func":
+        tag = p["tag"]
+        args = p["args"]
+        # documented elision of as-is coercers
+        if tag == "as_is_stub" and len(args) == 1 and args[0]["kind"] == "PositionalArg" \
+                or tag == "as_is_stub_with_ctx" and len(args) == 2 and all(a["kind"] == "PositionalArg" for a in args):
+            if not (isinstance(e, ast.Call) and isinstance(e.func, ast.Name) and ns.get(e.func.id, {}).get("tag") == tag):
+                return _match_plan(args[0]["el"], e, ns, bind)
+        if not args and isinstance(e, (ast.List, ast.Dict, ast.Tuple, ast.Set, ast.Constant)) or (
+                not args and isinstance(e, ast.Call) and isinstance(e.func, ast.Name) and e.func.id in ("set", "frozenset", "bytearray")
+                and e.func.id not in ns and not e.args):
+            # literal of a builtin factory: must be an EMPTY display of that type, evaluated per call
+            want = {"builtins.list": "[]", "builtins.dict": "{}", "builtins.tuple": "()", "builtins.set": "set()",
+                    "builtins.frozenset": "frozenset()", "builtins.bytearray": "bytearray()", "builtins.str": "''",
+                    "builtins.bytes": "b''", "builtins.int": "0", "builtins.float": "0.0", "builtins.bool": "False"}
+            # the factory is identified by the tag of the function (None for builtins): accept only when untagged
+            if tag is None and norm(e) in want.values():
+                return None
+            return f"factory {tag} rendered as literal `{norm(e)}`"
+        if not (isinstance(e, ast.Call) and isinstance(e.func, ast.Name)):
+            return f"call of {tag} rendered as `{norm(e)[:60]}`"
+        fname = e.func.id
+        got = ns.get(fname, {}).get("tag")
+        if fname not in ns:
+            return f"function {tag} called through the free name `{fname}`"
+        if got != tag and not (tag is None and ns[fname].get("callable", "").startswith("builtins.")):
+            return f"call of {tag} goes to `{fname}` which is bound to {got or ns[fname].get('repr')}"
+        if bind.setdefault(fname, str(tag)) != str(tag):
+            return f"name `{fname}` stands for two different functions"
+        pos = [a for a in args if a["kind"] in ("PositionalArg", "UnpackIterable")]
+        kws = [a for a in args if a["kind"] in ("KeywordArg", "UnpackMapping")]
+        if len(e.args) != len(pos):
+            return f"{len(pos)} positional arguments rendered as {len(e.args)}"
+        for a, x in zip(pos, e.args):
+            if a["kind"] == "UnpackIterable":
+                if not isinstance(x, ast.Starred):
+                    return "iterable unpacking lost"
+                x = x.value
+            elif isinstance(x, ast.Starred):
+                return "positional argument rendered with *"
+            r = _match_plan(a["el"], x, ns, bind)
+            if r:
+                return r
+        if len(e.keywords) != len(kws):
+            return f"{len(kws)} keyword arguments rendered as {len(e.keywords)}"
+
+        def _kwname(kw: ast.keyword) -> Optional[str]:
+            if kw.arg is not None:
+                return kw.arg
+            d = kw.value
+            if isinstance(d, ast.Dict) and len(d.keys) == 1 and isinstance(d.keys[0], ast.Constant):
+                return d.keys[0].value
+            return None
+        # named keywords may be emitted in any order (the callee binds them by name); unpackings keep their relative order
+        named = {_kwname(kw): kw for kw in e.keywords if _kwname(kw) is not None}
+        unnamed = [kw for kw in e.keywords if _kwname(kw) is None]
+        ordered = []
+        for a in kws:
+            if a["kind"] == "UnpackMapping":
+                if not unnamed:
+                    return "mapping unpacking lost"
+                ordered.append(unnamed.pop(0))
+            else:
+                if a["key"] not in named:
+                    return f"keyword `{a['key']}` is missing from the call"
+                ordered.append(named[a["key"]])
+        for a, kw in zip(kws, ordered):
+            if a["kind"] == "UnpackMapping":
+                if kw.arg is not None:
+                    return "mapping unpacking lost"
+                r = _match_plan(a["el"], kw.value, ns, bind)
+            elif kw.arg is not None:
+                if kw.arg != a["key"]:
+                    return f"keyword `{a['key']}` rendered as `{kw.arg}`"
+                r = _match_plan(a["el"], kw.value, ns, bind)
+            else:
+                # **{'class': value}
+                d = kw.value
+                if not (isinstance(d, ast.Dict) and len(d.keys) == 1 and isinstance(d.keys[0], ast.Constant) and d.keys[0].value == a["key"]):
+                    return f"keyword `{a['key']}` rendered as `{norm(kw.value)[:60]}`"
+                r = _match_plan(a["el"], d.values[0], ns, bind)
+            if r:
+                return r
+        return None
+    return f"unknown plan element {k}"
+
+
+def c13_checks(repo: Repo, tier: str, res: CheckResult, seed: int) -> None:
+    recs = run_child(repo, tier, seed, "broach,converter")
+    n = 0
+    for r in recs:
+        if r.get("kind") != "broach":
+            continue
+        n += 1
+        ident = f"G:broach:{r['idx']}:{_plan_text(r['plan'])[:80]}"
+        res.evaluated(ident, True)
+        if r.get("error"):
+            res.add(Finding("C13", "PLAN.generation-fails", BG, "BuiltinBroachingCodeGenerator.produce_code",
+                            _plan_text(r["plan"])[:120], f"code generation failed for a valid plan: {r['error']}", 0))
+            continue
+        try:
+            tree = ast.parse(r["source"])
+        except SyntaxError as ex:
+            res.add(Finding("C13", "PLAN.does-not-parse", BG, "BuiltinBroachingCodeGenerator.produce_code",
+                            _plan_text(r["plan"])[:120], f"emitted converter does not compile: {ex}", 0))
+            continue
+        fn = tree.body[0]
+        ns = r["namespace"]
+        ok_shape = isinstance(fn, ast.FunctionDef) and len(fn.body) == 1 and isinstance(fn.body[0], ast.Return)
+        if not ok_shape:
+            res.add(Finding("C13", "PLAN.body-shape", BG, "BuiltinBroachingCodeGenerator.produce_code", "body",
+                            "the emitted coercer must be a single `return <expression>` (nothing is stored, nothing is "
+                            "mutated)", 0))
+            continue
+        if [a.arg for a in fn.args.posonlyargs + fn.args.args] != ["data", "ctx"]:
+            res.add(Finding("C13", "PLAN.signature", BG, "BuiltinBroachingCodeGenerator.produce_code", norm(fn.args),
+                            "the coercer takes (data, ctx)", 0))
+        why = _match_plan(r["plan"], fn.body[0].value, ns, {})
+        if why:
+            prog = GenProg(r, tree, fn, r["idx"])
+            gfile, gfunc, gline = prog.origin_key(fn.body[0].lineno)
+            res.add(Finding("C13", "PLAN.expression-differs", BG if gfile.startswith("generated") else gfile,
+                            gfunc if gfunc != "?" else "BuiltinBroachingCodeGenerator", why[:120],
+                            f"plan `{_plan_text(r['plan'])[:160]}` is rendered as `{norm(fn.body[0].value)[:160]}`: {why}. The "
+                            "emitted expression must be the plan's image: one call per function element with the same "
+                            "positional/keyword structure, one attribute/item per accessor, constants type-exact", gline,
+                            extra={"plan": r["idx"]}))
+        if len(res.samples) < 6 and n % 17 == 0:
+            res.sample({"plan": _plan_text(r["plan"])[:160], "emitted": norm(fn.body[0].value)[:160], "verdict": "isomorphic"})
+    res.count("PLAN.programs", n, 100)
+    # converter template
+    m = 0
+    for r in recs:
+        if r.get("kind") != "converter":
+            continue
+        m += 1
+        ident = f"{r['sig']}/{r['function_name']}/{'stub' if r['stub'] else 'nostub'}"
+        res.evaluated(f"G:converter:{ident}", True)
+        qual = "BuiltinConverterProvider._produce_code"
+        if r.get("error"):
+            res.add(Finding("C13", "CONV.generation-fails", CPV, qual, ident, f"converter template failed: {r['error']}", 0))
+            continue
+        try:
+            tree = ast.parse(r["source"])
+        except SyntaxError as ex:
+            res.add(Finding("C13", "CONV.does-not-parse", CPV, qual, ident, f"emitted converter does not compile: {ex}", 0))
+            continue
+        ns = r["namespace"]
+        fn = tree.body[0]
+        params = r["params"]
+        cname = r["closure_name"]
+
+        def bad(rule: str, construct: str, why: str) -> None:
+            res.add(Finding("C13", rule, CPV, qual, construct, f"converter template ({ident}): {why}", 0))
+        if not isinstance(fn, ast.FunctionDef) or fn.name != cname:
+            bad("CONV.header", "def", "first statement is not the converter definition")
+            continue
+        # parameters: same names, kinds, order; defaults come from the namespace and are the very objects
+        got = [(a.arg, "POSITIONAL_ONLY") for a in fn.args.posonlyargs] + [(a.arg, "POSITIONAL_OR_KEYWORD") for a in fn.args.args] \
+            + [(a.arg, "KEYWORD_ONLY") for a in fn.args.kwonlyargs]
+        if got != [(p[0], p[1]) for p in params] or fn.args.vararg or fn.args.kwarg:
+            bad("CONV.signature", "parameters", f"parameters {got} differ from the requested {[(p[0], p[1]) for p in params]}")
+        pos_params = fn.args.posonlyargs + fn.args.args
+        defaults = dict(zip([a.arg for a in pos_params[len(pos_params) - len(fn.args.defaults):]], fn.args.defaults))
+        defaults.update({a.arg: d for a, d in zip(fn.args.kwonlyargs, fn.args.kw_defaults) if d is not None})
+        for pname, _k, enc, tg in params:
+            if enc is None:
+                if pname in defaults:
+                    bad("CONV.default", pname, f"parameter {pname} gained a default")
+                continue
+            d = defaults.get(pname)
+            if not (isinstance(d, ast.Name) and d.id in ns):
+                bad("CONV.default", pname, f"default of {pname} is rendered as `{norm(d) if d else None}` instead of a namespace constant")
+                continue
+            if tg is not None and ns[d.id].get("tag") != tg or tg is None and ns[d.id].get("type") != enc["t"]:
+                bad("CONV.default", pname, f"default of {pname} is bound to another object ({ns[d.id].get('repr')})")
+            if d.id in [p[0] for p in params] or d.id == cname:
+                bad("CONV.default", pname, f"default variable `{d.id}` clashes with a parameter or the converter name")
+        # body: return coercer(first, ctx)
+        body_ok = len(fn.body) == 1 and isinstance(fn.body[0], ast.Return) and isinstance(fn.body[0].value, ast.Call)
+        if not body_ok:
+            bad("CONV.body", "body", "body is not `return coercer(first, ctx)`")
+            continue
+        call = fn.body[0].value
+        cvar = call.func.id if isinstance(call.func, ast.Name) else None
+        if cvar is None or ns.get(cvar, {}).get("tag") != "coercer" or cvar in [p[0] for p in params] or cvar == cname:
+            bad("CONV.body", norm(call.func), f"the callee `{norm(call.func)}` is not the top-level coercer (namespace: "
+                f"{ns.get(cvar, {}).get('tag') if cvar else None}; shadowed by a parameter or by the converter itself otherwise)")
+        extra = [p[0] for p in params[1:]]
+        want_ctx = "None" if not extra else (extra[0] if len(extra) == 1 else "(" + ", ".join(extra) + ")")
+        if len(call.args) != 2 or call.keywords or norm(call.args[0]) != params[0][0] or norm(call.args[1]) != want_ctx:
+            bad("CONV.ctx-passing", norm(call), f"call `{norm(call)}` must pass the first parameter and the context `{want_ctx}` "
+                "(None / the single extra parameter / the tuple of extra parameters in order)")
+        rest = [norm(s) for s in tree.body[1:]]
+        if f"{cname}.__signature__ = _closure_signature" not in rest:
+            bad("CONV.signature-attr", "__signature__", "the converter does not expose the requested signature")
+        names = [s for s in rest if s.startswith(f"{cname}.__name__ = ")]
+        if not names or ast.literal_eval(names[-1].split(" = ", 1)[1]) != r["function_name"]:
+            bad("CONV.name-attr", "__name__", f"__name__ is not the requested function name {r['function_name']!r}")
+        uw = f"_update_wrapper({cname}, _stub_function)"
+        if r["stub"] != (uw in rest):
+            bad("CONV.update-wrapper", uw, "update_wrapper must be applied exactly when a stub function exists")
+        if uw in rest and f"{cname}.__signature__ = _closure_signature" in rest \
+                and rest.index(uw) > rest.index(f"{cname}.__signature__ = _closure_signature"):
+            bad("CONV.update-wrapper", uw, "update_wrapper after the signature assignment overwrites nothing today but the "
+                "order signature-last is the documented one")
+        if r["stub"] and ns.get("_stub_function", {}).get("tag") != "stub":
+            bad("CONV.update-wrapper", "_stub_function", "the wrapped object is not the stub")
+    res.count("CONV.programs", m, 30)
+
+
+# ------------------------------------------------------------------------------------------------ C13: whole pipeline
+def _link_oracle(cfg: dict, level: str) -> Tuple[Optional[List[Tuple]], Optional[str]]:
+    """Expected argument descriptors of the constructor call for the model at `level` ('top' | 'inner'), computed from the
+    property statement alone; (None, reason) when the converter must be refused."""
+    params: List[str] = cfg["params"]
+    model = cfg if level == "top" else cfg["inner"]
+    src_fields: List[str] = list(model["src_fields"])
+    dst_fields = [tuple(x) for x in model["dst_fields"]]
+    out: List[Tuple] = []
+    if level == "top" and cfg.get("inner"):
+        sub, why = _link_oracle(cfg, "inner")
+        if sub is None:
+            return None, "nested model: " + str(why)
+        out.append(("nested",))
+        src_fields = src_fields + ["n"]
+    for name, optional in dst_fields:
+        chosen: Optional[Tuple] = None
+        for i, it in enumerate(cfg["recipe"]):
+            if it["k"] == "allow" or it.get("level", "top") != level or it["dst"] != name:
+                continue
+            k = it["k"]
+            if k == "link":
+                # fields of this model first (declaration order), then the converter parameters right to left
+                if it["src"] in src_fields and it["src"] != "n":
+                    chosen = ("field", it["src"], bool(it.get("coercer")))
+                elif it["src"] in params:
+                    idx = max(j for j, p in enumerate(params) if p == it["src"])
+                    chosen = ("param", idx, bool(it.get("coercer")))
+            elif k == "link_re":
+                # regular expression over field ids: first matching field in declaration order, else the rightmost
+                # matching converter parameter
+                fm = [f for f in src_fields if f in it["alts"] and f != "n"]
+                pm = [j for j, p in enumerate(params) if p in it["alts"]]
+                if fm:
+                    chosen = ("field", fm[0], False)
+                elif pm:
+                    chosen = ("param", max(pm), False)
+            elif k == "link_typed":
+                if it["src"] in src_fields:
+                    chosen = ("field", it["src"], False)
+            elif k == "link_param":
+                if it["param"] in params:
+                    chosen = ("param", params.index(it["param"]), False)
+            elif k == "const":
+                chosen = ("const", it["value"])
+            elif k == "const_factory":
+                chosen = ("factory", f"factory:{i}")
+            elif k == "func":
+                if any(kw not in src_fields for kw in it["kwonly"]) or any(p not in params for p in it["pos"]):
+                    return None, f"link_function parameter without source for {name}"
+                chosen = ("func", f"linked:{i}", [("param", params.index(p), False) for p in it["pos"]],
+                          [(kw, ("field", kw, False)) for kw in it["kwonly"]])
+            if chosen is not None:
+                break
+        if chosen is None:
+            if level == "top" and name in params:
+                chosen = ("param", max(j for j, p in enumerate(params) if p == name), False)
+            elif name in src_fields:
+                chosen = ("field", name, False)
+        if chosen is None:
+            if not optional:
+                return None, f"required field {name} has no source"
+            allowed = any(it["k"] == "allow" and it["dst"] == name and it.get("level", "top") == level for it in cfg["recipe"])
+            if not allowed:
+                return None, f"optional field {name} unlinked and the default policy forbids it"
+            out.append(("skipped",))
+            continue
+        out.append(chosen)
+    return out, None
+
+
+def _describe_arg(e: ast.expr, ns: Dict[str, dict], n_params: int) -> Tuple:
+    """descriptor of an emitted constructor argument"""
+    def base(x: ast.expr) -> Optional[Tuple]:
+        if isinstance(x, ast.Attribute) and isinstance(x.value, ast.Name) and x.value.id == "data":
+            return ("field", x.attr)
+        if isinstance(x, ast.Name) and x.id == "ctx":
+            return ("param", 0) if n_params == 1 else ("ctx-whole",)
+        if isinstance(x, ast.Subscript) and isinstance(x.value, ast.Name) and x.value.id == "ctx" and isinstance(x.slice, ast.Constant):
+            return ("param", x.slice.value) if n_params != 1 else ("ctx-indexed-with-one-param",)
+        return None
+    b = base(e)
+    if b is not None:
+        return b + (False,)
+    if isinstance(e, ast.Call) and isinstance(e.func, ast.Name):
+        d = ns.get(e.func.id, {})
+        tag = d.get("tag")
+        if tag and tag.startswith("linked:"):
+            pos = [_describe_arg(a, ns, n_params) for a in e.args]
+            kws = sorted((str(k.arg), _describe_arg(k.value, ns, n_params)) for k in e.keywords)
+            return ("func", tag, pos, kws)
+        if tag and tag.startswith("factory:") and not e.args and not e.keywords:
+            return ("factory", tag)
+        if len(e.args) == 2 and not e.keywords and isinstance(e.args[1], ast.Name) and e.args[1].id == "ctx":
+            b = base(e.args[0])
+            if b is not None:
+                if "coerce_SrcInner_to_DstInner" in d.get("repr", "") and b == ("field", "n"):
+                    return ("nested",)
+                return b + (True,)
+    try:
+        return ("const", _eval_literal(norm(e)))
+    except Exception:  # noqa: BLE001
+        pass
+    if isinstance(e, ast.Name) and e.id in ns:
+        return ("const-ns", ns[e.id].get("repr"))
+    return ("?", norm(e)[:60])
+
+
+def c13_pipeline_checks(repo: Repo, tier: str, res: CheckResult, seed: int) -> None:
+    recs = [r for r in run_child(repo, tier, seed, "convpipe") if r.get("kind") == "convpipe"]
+    n = n_ok = 0
+    MCP = "adaptix/_internal/conversion/model_coercer_provider.py"
+    for r in recs:
+        if r.get("harness_error"):
+            raise AnalysisError(f"convpipe harness failed on configuration {r['idx']}: {r['harness_error']}")
+        cfg = r["cfg"]
+        n += 1
+        cdesc = json.dumps(cfg, sort_keys=True)
+        ident = f"G:convpipe:{r['idx']}"
+        res.evaluated(ident, True)
+        want_top, why = _link_oracle(cfg, "top")
+
+        def bad(rule: str, construct: str, msg: str) -> None:
+            res.add(Finding("C13", rule, MCP, "ModelCoercerProvider", construct[:160],
+                            f"converter for configuration #{r['idx']} {cdesc[:400]}: {msg}", 0, extra={"cfg": cfg}))
+        if want_top is None:
+            if r["error"] is None:
+                bad("PIPE.unlinked-accepted", "converter created", f"a converter was produced although {why}")
+            continue
+        if r["error"] is not None:
+            bad("PIPE.refused", f"creation failed: {r['error']}", "every destination field has a source by the documented "
+                f"rules ({want_top}) but the converter could not be created")
+            continue
+        n_ok += 1
+        n_params = len(cfg["params"])
+        for level, dname, fname in (("top", "Dst", "coerce_Src_to_Dst"), ("inner", "DstInner", "coerce_SrcInner_to_DstInner")):
+            if level == "inner" and not cfg.get("inner"):
+                continue
+            want, _ = _link_oracle(cfg, level)
+            cl = [c for c in r["closures"] if f"def {fname}(" in c["source"]]
+            if len(cl) != 1:
+                bad("PIPE.closures", fname, f"expected one generated coercer {fname}, found {len(cl)}")
+                continue
+            src = cl[0]["source"]
+            # the hook sees the wrapped module text: assignments `name = g_name`, the def, `return name`
+            body = "\n".join(l for l in src.split("\n") if not l.startswith("return "))
+            try:
+                tree = ast.parse(body)
+            except SyntaxError as ex:
+                bad("PIPE.does-not-parse", fname, f"emitted source does not parse: {ex}")
+                continue
+            alias = {}
+            for st in tree.body:
+                if isinstance(st, ast.Assign) and isinstance(st.targets[0], ast.Name) and isinstance(st.value, ast.Name):
+                    alias[st.targets[0].id] = st.value.id
+            ns = {name: cl[0]["namespace"].get(g, {}) for name, g in alias.items()}
+            fn = next((x for x in tree.body if isinstance(x, ast.FunctionDef)), None)
+            if fn is None or len(fn.body) != 1 or not isinstance(fn.body[0], ast.Return) or not isinstance(fn.body[0].value, ast.Call):
+                bad("PIPE.body", fname, "the coercer is not a single `return Constructor(...)`")
+                continue
+            call = fn.body[0].value
+            if not (isinstance(call.func, ast.Name) and dname in ns.get(call.func.id, {}).get("repr", "")):
+                bad("PIPE.constructor", norm(call.func), f"the result is not built by the destination class {dname}")
+                continue
+            dst_names = (["n"] if level == "top" and cfg.get("inner") else []) + [x[0] for x in (cfg if level == "top" else cfg["inner"])["dst_fields"]]
+            got: Dict[str, Tuple] = {}
+            for i, a in enumerate(call.args):
+                if i < len(dst_names):
+                    got[dst_names[i]] = _describe_arg(a, ns, n_params)
+                else:
+                    got[f"#{i}"] = ("?", norm(a)[:40])
+            for k in call.keywords:
+                got[k.arg or "**"] = _describe_arg(k.value, ns, n_params)
+            exp: Dict[str, Tuple] = {}
+            for nm, w in zip(dst_names, want):
+                if w[0] == "skipped":
+                    continue
+                if w[0] == "func":
+                    exp[nm] = ("func", w[1], [("field?",)] + [tuple(x) for x in w[2]], sorted((k, tuple(v)) for k, v in w[3]))
+                else:
+                    exp[nm] = tuple(w)
+            # normalise the function descriptor: first positional argument is the model itself
+            for nm, g in list(got.items()):
+                if g[0] == "func":
+                    pos = list(g[2])
+                    first = pos[0] if pos else None
+                    model_ok = first == ("?", "data")
+                    got[nm] = ("func", g[1], [("field?",) if model_ok else first] + pos[1:], g[3])
+            if got != exp:
+                diffs = [f"{k}: emitted {got.get(k)} expected {exp.get(k)}" for k in sorted(set(got) | set(exp)) if got.get(k) != exp.get(k)]
+                bad("PIPE.wrong-source", "; ".join(diffs)[:150],
+                    f"{fname}: `{norm(call)[:200]}` does not build the destination field-wise from the documented sources: "
+                    + "; ".join(diffs)[:400])
+        if len(res.samples) < 8 and n_ok % 25 == 1:
+            res.sample({"configuration": cfg, "expected_top": [list(map(str, w)) for w in want_top], "verdict": "agrees"})
+    res.count("PIPE.configurations", n, 150)
+    res.count("PIPE.converters-produced", n_ok, 50)
